@@ -37,6 +37,7 @@ VALID_SNIPPETS = [
     'try:\n    pass\nexcept* A as e:\n    pass\nexcept* (B, C):\n    pass\n', 'try:\n    pass\nfinally:\n    pass\n',
     'for x in y:\n    try:\n        pass\n    finally:\n        continue\n', 'while 1:\n    try:\n        break\n    finally:\n        pass\n',
     'for x in y:\n    if x: continue\n    else: break\nelse:\n    pass\n', 'def f():\n    for x in y:\n        def g():\n            return 1\n        break\n',
+    'from __future__.a import b\n', '"""doc"""\nfrom __future__.x import y as z\n', 'raw = b"\\N{foo}"\n', 'raw = b"\\u12 \\U0011"\n',
     'from __future__ import annotations\n', 'from __future__ import division, print_function\nx = 1\n',
     '"""doc"""\nfrom __future__ import generators\nfrom __future__ import with_statement\nimport os\n',
     'from __future__ import (absolute_import, unicode_literals,)\n', 'from __future__ import nested_scopes as ns\n',
